@@ -627,7 +627,7 @@ def c10(run):
             for l in lines:
                 f.write(evs[l - 1]["repro"] + "\n")
         found = False
-        for attempt in range(3):    # nondeterminism may need more than one repetition to show again
+        for attempt in range(8):    # nondeterminism may need several repetitions to show again (each costs a second)
             joined2, evs2 = _purity_round(run, again, "r2-%d" % attempt)
             v2, _ = run.validate("Trace_Purity", joined2, label="confirm", count=False)
             bad2 = {v["l"]: v for v in v2 if _vlib.classify(v) == "mismatch"}
@@ -638,6 +638,6 @@ def c10(run):
             if found:
                 break
         if not found:
-            raise _ME("purity mismatch not reproduced in three rounds: %s" % bad[:3])
+            raise _ME("purity mismatch not reproduced in eight rounds: %s" % bad[:3])
     else:
         props.canary(run, "purity", "Trace_Purity", joined)
